@@ -59,5 +59,10 @@ void M__ZNSt7__cxx1112basic_stringIcSt11char_traitsIcESaIcEEC2EPKcRKS3_(void* se
   struct vf_string* s = (struct vf_string*)self;
   uint64_t n = strlen((const char*)cstr);
   if (n <= 15) s->p = s->u.local; else { s->p = (char*)vf_alloc(n + 1); s->u.cap = n; }
-  memcpy(s->p, cstr, n); s->p[n] = 0; s->len = n;
+#ifdef VF_BYTE_COPY_LOOPS
+  for (uint64_t i_ = 0; i_ < n; i_++) s->p[i_] = ((const char*)cstr)[i_];      /* (byte_copy='loop': constant bytes stay constants for symex) */
+#else
+  memcpy(s->p, cstr, n);
+#endif
+  s->p[n] = 0; s->len = n;
 }
